@@ -38,7 +38,7 @@ impl Ctx {
     /// wall-clock cap for one model run (inside the engine)
     pub fn model_budget(&self) -> Duration {
         let env = std::env::var("VERIF_MODEL_BUDGET_S").ok().and_then(|s| s.parse::<u64>().ok());
-        Duration::from_secs(env.unwrap_or(if self.quick() { 50 } else { 1500 }))
+        Duration::from_secs(env.unwrap_or(if self.quick() { 180 } else { 1800 }))
     }
     pub fn tier_name(&self) -> &'static str {
         if self.quick() {
